@@ -122,7 +122,12 @@ def runConcat (attrs : Json) (ins : List (Option DT)) : Answer :=
             | .ok t => { status := "ok", outs := [some (DT.mk t0.dt t none)] }
             | .error e => .ofErr e
           { model, spec := specOfOpt t0.dt "must" (Spec.concat axis (ts.map (·.t))),
-            guard := if (Spec.concat axis (ts.map (·.t))).isNone then ["concat.invalid_request"] else [],
+            -- the two recorded findings, by their CONDITION: one input (returned without looking at the axis), and
+            -- axis = -rank-1 with several inputs (gorgonia's AllAxes: panic); every other invalid request must be refused
+            guard := if (Spec.concat axis (ts.map (·.t))).isNone then
+                (if ts.length == 1 then ["concat.single_input_axis_unchecked"]
+                 else if axis == -(t0.t.rank : Int) - 1 then ["concat.axis_minus_rank_minus_one"] else [])
+              else [],
             tags := [s!"n{ts.length}", s!"rank{t0.t.rank}", s!"axis{axis}"] }
 
 def isIndexOp (op : String) : Bool :=
